@@ -217,11 +217,17 @@ def run_meadows(ctx, scratch):
         content[f'stimuli_{q.replace("-", "_")}'] = np.array(stim)
         content[f'rdmutv_{q.replace("-", "_")}'] = u.reshape(1, -1)
         expect.append(dict(participant=q, task=task, stimuli=stim, utv=u))
-    if rng.integers(2):   # variables grouped differently in the file
-        content = dict(sorted(content.items(), key=lambda kv: (not kv[0].startswith('rdmutv'), ps.index('-'.join(kv[0].split('_')[1:])))))
+    layout = gen.pick(rng, ['interleaved', 'grouped', 'grouped_other_order'])
+    if layout != 'interleaved':   # variables grouped differently in the file; the two groups possibly in another
+        # participant order (values and names are paired by participant name, not by position in the file)
+        def pos(kv):
+            i = ps.index('-'.join(kv[0].split('_')[1:]))
+            is_utv = kv[0].startswith('rdmutv')
+            return (not is_utv, -i if (is_utv and layout == 'grouped_other_order') else i)
+        content = dict(sorted(content.items(), key=pos))
     path = os.path.join(scratch, f'Meadows_{exp}_v_v1_{task}_1D.mat')
     scipy.io.savemat(path, content)
-    sig = dict(importer='meadows', kind='mat_multi', sort=sort)
+    sig = dict(importer='meadows', kind='mat_multi', sort=sort, layout=layout)
     wit = lambda **k: dict(path=path, participants=ps, stimuli=stim, **k)  # noqa: E731
     ok, r = ctx.guarded('meadows_mat_multi', sig, load_rdms, path, sort=sort, data=wit)
     if ok:
